@@ -31,8 +31,11 @@ def one(cand):
     meta = json.load(open(os.path.join(cand, 'meta.json')))
     prop = meta.get('property') or os.path.basename(os.path.dirname(cand))[:3]
     n = os.path.basename(cand)
-    if os.path.basename(os.path.dirname(cand)).endswith('.out2') and n.isdigit():
-        n = str(int(n) + 2)   # second round of seeding
+    parent = os.path.basename(os.path.dirname(cand))
+    for suffix, shift in (('.out2', 2), ('.out3', 4), ('.out4', 6)):   # later rounds of seeding
+        if parent.endswith(suffix) and n.isdigit():
+            n = str(int(n) + shift)
+            break
     sid = '%s-%s' % (prop, n)
     wt = tempfile.mkdtemp(prefix='pysmi-seed-')
     os.rmdir(wt)
